@@ -119,3 +119,36 @@ func SplitMix(x uint64) uint64 {
 	z = (z ^ (z >> 27)) * 0x94d049bb133111eb
 	return z ^ (z >> 31)
 }
+
+// PrefixSource follows a prefix of decisions and then always picks 0. Together with
+// NextPrefix it enumerates the whole choice tree depth first (stateless DFS).
+type PrefixSource struct {
+	Prefix []Choice
+	I      int
+}
+
+func (s *PrefixSource) Pick(n int, what string) int {
+	if s.I < len(s.Prefix) {
+		c := s.Prefix[s.I]
+		s.I++
+		if c.C < n {
+			return c.C
+		}
+		return 0
+	}
+	s.I++
+	return 0
+}
+
+// NextPrefix returns the decision prefix of the next leaf in depth-first order
+// after the run that produced trace, or nil when the tree is exhausted.
+func NextPrefix(trace []Choice) []Choice {
+	for i := len(trace) - 1; i >= 0; i-- {
+		if trace[i].C+1 < trace[i].N {
+			p := append([]Choice(nil), trace[:i+1]...)
+			p[i].C++
+			return p
+		}
+	}
+	return nil
+}
